@@ -11,6 +11,10 @@ correspondence : the *checked-execution* (`Ck`) Lean models of 24 kernels (gauss
                  block_jacobi_indexed, extract_subblocks, overlapping_schwarz_csr with `gemm` in accumulate mode; rs_cf_splitting_pass2, cr_helper;
                  approx_ideal_restriction_pass1; satisfy_constraints_helper, calc_BtB, incomplete_mat_mult_bsr with the two remaining `gemm` modes;
                  apply_householders, householder_hornerscheme, apply_givens; floyd_warshall, connected_components, most_interior_nodes)
+                 and, through the `ext_c17r4_*` ops of Driver/ExtE32.lean, of 9 more (vertex_coloring_mis, maximal_independent_set_parallel,
+                 vertex_coloring_jones_plassmann, vertex_coloring_LDF with vertex_coloring_first_fit, maximal_independent_set_k_parallel with
+                 csr_propagate_max; pairwise_aggregation with its multimap; cljp_naive_splitting and fit_candidates on IEEE doubles, bit for bit; plus
+                 bellman_ford_balanced through the validated model of `ext_c18_bfbal`)
                  are run on exact dyadic inputs (the two interpolation passes on IEEE doubles, bit for bit); their `.val` must
                  equal the output of the rebuilt kernel exactly and their `ok` flag must be true (the flag is what the
                  safety theorems of Props/C17.lean are about); malformed controls must clear the flag.  The proof-side
@@ -56,14 +60,19 @@ META = {
             '(kernel, dtype signature, argument bytes)',
     'search_only': ['no undefined integer / shift / pointer operation: UBSan + _GLIBCXX_ASSERTIONS on the rebuilt kernels (not modelled in Lean)',
                     'releases what it allocates: live-heap-bytes delta around every traced call (ASan allocator statistics)',
-                    'bounds safety of the 14 kernels without a Ck model (cljp_naive_splitting, approx_ideal_restriction_pass2 and its block version, pairwise_aggregation, '
-                    'fit_candidates, evolution_strength_helper, pinv_array, '
-                    'the Lloyd graph kernels bellman_ford_balanced / center_nodes, parallel and k-parallel MIS, '
-                    'the three colourings): ASan on generated inputs',
+                    'bounds safety of the 5 kernels without a checked model (approx_ideal_restriction_pass2 and its block version: std::set + dense QR / GMRES; '
+                    'evolution_strength_helper, pinv_array: svd_jacobi / svd_solve; center_nodes): ASan on generated inputs',
                     'termination of the kernels with data-dependent loops other than the five with a *_total theorem: CPU-time limit per call',
                     'reads of uninitialised work memory: only through ASan malloc_fill (0xbe) turning garbage indices into wild accesses, and output poisoning',
                     'outputs fully defined: poison patterns in output buffers (contract table CONTRACT in this file)'],
-    'partial': ['rs_cf_splitting: the whole-kernel theorem rs_cf_splitting_safe (checked model RS.runCk, op ext_rs_whole: all initialisation loops, main loop, '
+    'partial': ['round-4 models with data dependent outer loops (maximal_independent_set_parallel with max_iters = -1, vertex_coloring_jones_plassmann, vertex_coloring_LDF, '
+                'maximal_independent_set_k_parallel with max_iters = -1, cljp_naive_splitting): the theorems are "a run that returns was in range" for EVERY fuel (plus '
+                '"returns within max_iters passes" for max_iters >= 0); termination of these loops is proved for the function models of C18 (coloringJP_total, coloringLDF_total, '
+                'misK_total, mis_parallel_total), not for the Ck transcriptions, and for CLJP only searched (CPU limit + the driver fuel n+1: `nonterm` would be a correspondence failure); '
+                'vertex_coloring_mis, pairwise_aggregation, fit_candidates include termination',
+                'bellman_ford_balanced: the no-fault theorems are about the validated executable model Bal.kernel / Bal.wrapper (Option-style, not the Ck monad); termination within n*n '
+                'sweeps is not proved (the kernel throws)',
+                'rs_cf_splitting: the whole-kernel theorem rs_cf_splitting_safe (checked model RS.runCk, op ext_rs_whole: all initialisation loops, main loop, '
                 'bucket moves, clean-up; in range, nothing negative, main loop within n iterations, value = RS.run) is for `influence` = 0, which is what RS() passes '
                 'unless the caller supplies a vector; a non-zero influence vector is search-only',
                 'termination theorems (bfs/cc/coloring/mis_parallel/bellman_ford_total) are about the proof-side models (run by the driver via p_* ops), '
@@ -79,6 +88,11 @@ META = {
                     'rows*cols values per stored block; cr_helper: indices has n+1 entries with indices[0] <= n nodes listed behind it, and the abstract scalars satisfy CrOrd '
                     '(0 tests as zero, a > 0 implies a != 0, a > m > 0 implies a > 0: true for IEEE doubles and exact arithmetic); the correspondence inputs of cr_helper keep '
                     'inf_norm > 0 (the kernel divides by it; 0/0 is NaN in C and 0 in the exact model)',
+                    'round-4 models: vertex_coloring_jones_plassmann / _LDF and cljp_naive_splitting(colorflag = 1) need n > 0 (for n = 0 the kernels dereference max_element of an empty '
+                    'range: reported finding; the models fault there, control inputs); vertex_coloring_first_fit: K >= 0, no entry of x above K and the nodes coloured K separated (what a '
+                    'parallel-MIS pass establishes on ANY pattern: parallel_coloring_round_safe); fit_candidates: Ax holds K1*K2 values per stored index, B n_row*K1*K2, R n_col*K2^2; '
+                    'bellman_ford_balanced: positive weights on a grid coarser than 2*tol, arrays as the wrapper / the Lloyd loop initialise them (Bal.Inv); the correspondence inputs of '
+                    'maximal_independent_set_k_parallel keep the weights above -1 (C18 finding: otherwise no termination with max_iters = -1, kept as a `nonterm` control)',
                     'scalar arithmetic is abstract in the theorems; overflow of 32-bit index arithmetic is left to UBSan on sizes n <= 40'],
     'trusted_extra': ['g++ AddressSanitizer/UBSan runtime and libstdc++ assertions (the instrumented build is the oracle of the search)',
                       'harness/props/c17.py CONTRACT table: which output regions each kernel must define'],
@@ -1985,6 +1999,89 @@ def ext3_model_items(rng, amg_core, add, n, ip, ix, dx):
         f'{enc_ints(cen1)};{int(bool(chg))};{encd(dd1)};{enc_ints(m1)};{enc_ints(p1)};ok', 'most_interior_nodes', len(ix) > 0)
 
 
+def ext4_model_items(rng, amg_core, add, n, ip, ix, dx):
+    """extension E32 (round 4): the checked models of Model/ExtC17R4*.lean (driver ops `ext_c17r4_<kernel>`) against the rebuilt kernels"""
+    from common import enc_ints, enc_rats, enc_rat
+    nt = len(ix) > 0
+    gh = f'{n} {enc_ints(ip)} {enc_ints(ix)}'
+    # graph.h: colourings and independent sets on ANY structurally valid pattern (nonsymmetric, self loops, duplicates); weights with ties
+    col = np.full(n, -7, dtype=np.int32)
+    K = amg_core.vertex_coloring_mis(n, ip, ix, col)
+    add(f'ext_c17r4_vertex_coloring_mis {gh} {enc_ints(np.full(n, -7))}', f'{enc_ints(col)};{int(K)};ok', 'vertex_coloring_mis', nt)
+    y = rng.integers(0, 3, size=n).astype(float) * float(rng.choice([0.5, 1.0]))
+    mi = int(rng.choice([-1, -1, 0, 1, 2]))
+    x0 = np.full(n, -1, dtype=np.int32)
+    if rng.random() < 0.3:
+        x0 = rng.choice([-1, -1, 0, 1], size=n).astype(np.int32)        # partially decided input
+    xp = x0.copy()
+    N = amg_core.maximal_independent_set_parallel(n, ip, ix, -1, 1, 0, xp, y, mi)
+    add(f'ext_c17r4_maximal_independent_set_parallel {gh} -1 1 0 {enc_ints(x0)} {enc_rats(y)} {mi}', f'{enc_ints(xp)};{int(N)};ok', 'maximal_independent_set_parallel', nt)
+    z0 = rng.integers(0, 3, size=n).astype(float) * 0.25
+    col, z = np.full(n, -7, dtype=np.int32), z0.copy()
+    K = amg_core.vertex_coloring_jones_plassmann(n, ip, ix, col, z)
+    add(f'ext_c17r4_vertex_coloring_jones_plassmann {gh} {enc_ints(np.full(n, -7))} {enc_rats(z0)}', f'{enc_ints(col)};{enc_rats(z)};{int(K)};ok',
+        'vertex_coloring_jones_plassmann', nt)
+    col = np.full(n, -7, dtype=np.int32)
+    K = amg_core.vertex_coloring_LDF(n, ip, ix, col, z0)
+    add(f'ext_c17r4_vertex_coloring_LDF {gh} {enc_ints(np.full(n, -7))} {enc_rats(z0)}', f'{enc_ints(col)};{int(K)};ok', 'vertex_coloring_LDF', nt)
+    # ruge_stuben.h: cljp_naive_splitting, both weight initialisations (colouring; the C library generator replayed after srand(2448422)), S any pattern,
+    # T = S^T or an unrelated valid pattern; IEEE doubles bit for bit
+    cf = int(rng.integers(2))
+    if rng.random() < 0.25:
+        tp_, tj_, _, _ = rand_pattern(rng, n, explicit_zero=False)
+        tp_, tj_ = np.asarray(tp_, dtype=np.int32), np.asarray(tj_, dtype=np.int32)
+    else:
+        tp_, tj_ = transpose_pattern(n, ip, ix)
+    libc = ctypes.CDLL(None)
+    libc.srand(2448422)
+    rnd = np.array([libc.rand() for _ in range(n)], dtype=np.float64) / 2147483647.0
+    spl = np.full(n, -7, dtype=np.int32)
+    amg_core.cljp_naive_splitting(n, ip, ix, tp_, tj_, spl, cf)
+    add(f'ext_c17r4_cljp_naive_splitting {gh} {enc_ints(tp_)} {enc_ints(tj_)} {enc_ints(np.full(n, -7))} {cf} {fbits(rnd)}', enc_ints(spl) + ';ok',
+        'cljp_naive_splitting', nt)
+    # smoothed_aggregation.h: fit_candidates (real instantiation, IEEE doubles bit for bit): any CSC pattern of nagg columns over nrow supernodes
+    # (empty columns, rows in several columns), K1 dofs per supernode, K2 candidates (rank deficient columns included)
+    nagg, K1, K2 = int(rng.integers(1, 5)), int(rng.integers(1, 3)), int(rng.integers(1, 4))
+    cp, ci, _, _ = _exact_csr(rng, nagg, m=n)
+    Bf = rng.integers(-2, 3, size=n * K1 * K2).astype(np.float64)
+    if rng.random() < 0.3:
+        Bf.reshape(n * K1, K2)[:, -1] = Bf.reshape(n * K1, K2)[:, 0]          # a dependent column
+    tolf = float(rng.choice([1e-10, 0.5]))
+    Q0, R0 = np.full(len(ci) * K1 * K2, -7.0), np.full(nagg * K2 * K2, -7.0)
+    Q1, R1 = Q0.copy(), R0.copy()
+    amg_core.fit_candidates(n, nagg, K1, K2, cp, ci, Q1, Bf, R1, tolf)
+    add(f'ext_c17r4_fit_candidates {nagg} {K1} {K2} {enc_ints(cp)} {enc_ints(ci)} {fbits(Q0)} {fbits(Bf)} {fbits(R0)} {fbits(np.array([tolf]))}',
+        f'{fbits(Q1)};{fbits(R1)};ok', 'fit_candidates', len(ci) > 0)
+    # smoothed_aggregation.h: pairwise_aggregation on any pattern (self loops, duplicates, nonsymmetric), weights with ties (>= takes the last one)
+    xa, ya = np.full(n, -7, dtype=np.int32), np.full(n, -7, dtype=np.int32)
+    sxw = np.abs(dx) * float(rng.choice([0.5, 1.0])) - float(rng.choice([0.0, 1.0]))
+    k = amg_core.pairwise_aggregation(n, ip, ix, sxw, xa, ya)
+    add(f'ext_c17r4_pairwise_aggregation {gh} {enc_rats(sxw)} {enc_ints(np.full(n, -7))} {enc_ints(np.full(n, -7))}', f'{enc_ints(xa)};{enc_ints(ya)};{int(k)};ok',
+        'pairwise_aggregation', nt)
+    # graph.h: bellman_ford_balanced from the wrapper's initial arrays: positive weights on the grid 1/2 (far above the kernel's tolerance
+    # 1e-14), distinct centres, any pattern; the validated model Bal.kernel (theorem bellman_ford_balanced_no_fault) must return, with the same arrays
+    wb = (np.abs(dx) + 1.0) * 0.5
+    kc = int(rng.integers(1, min(n, 3) + 1))
+    cen = rng.choice(n, size=kc, replace=False).astype(np.int32)
+    bd, bm, bp = np.full(n, np.inf), np.full(n, -1, dtype=np.int32), np.full(n, -1, dtype=np.int32)
+    bpc, bs = np.zeros(n, dtype=np.int32), np.ones(kc, dtype=np.int32)
+    bd[cen] = 0
+    bm[cen] = np.arange(kc)
+    tb = bool(rng.integers(2))
+    encd = lambda v: ','.join('inf' if not np.isfinite(t_) else enc_rat(t_) for t_ in v) if len(v) else '-'
+    line = (f'ext_c18_bfbal {gh} {enc_rats(wb)} {enc_rat(1e-14)} {int(tb)} {encd(bd)} {enc_ints(bm)} {enc_ints(bp)} {enc_ints(bpc)} {enc_ints(bs)}')
+    ch = amg_core.bellman_ford_balanced(n, ip, ix, wb, cen, bd, bm, bp, bpc, bs, tb)
+    add(line, f'{encd(bd)};{enc_ints(bm)};{enc_ints(bp)};{enc_ints(bpc)};{enc_ints(bs)};{"true" if ch else "false"}', 'bellman_ford_balanced', nt)
+    # MIS-k: weights above -1 (a weight <= -1 next to a decided node never terminates with max_iters = -1: C18 finding), ties included
+    k = int(rng.integers(0, 4))
+    yk = rng.integers(0, 4, size=n).astype(float) * 0.25
+    mi = int(rng.choice([-1, -1, 0, 1, 2]))
+    xk = np.full(n, -7, dtype=np.int32)
+    amg_core.maximal_independent_set_k_parallel(n, ip, ix, k, xk, yk, mi)
+    add(f'ext_c17r4_maximal_independent_set_k_parallel {gh} {k} {enc_ints(np.full(n, -7))} {enc_rats(yk)} {mi}', f'{enc_ints(xk)};ok',
+        'maximal_independent_set_k_parallel', nt)
+
+
 def model_items(seed, ncases, inflight):
     """(runs in a child process) correspondence requests for the Lean driver with the outputs of the real kernels"""
     from pyamg import amg_core as _core
@@ -1994,6 +2091,7 @@ def model_items(seed, ncases, inflight):
     rng_ext = np.random.default_rng([seed, 1717, 7])      # own stream: the first 25 models keep their inputs
     rng_ext3 = np.random.default_rng([seed, 1717, 19])
     rng_ext25 = np.random.default_rng([seed, 1717, 25])
+    rng_ext4 = np.random.default_rng([seed, 1717, 32])
     items = []          # (line, expected, what, nontrivial)
     feats_all = collections.Counter()
 
@@ -2136,6 +2234,7 @@ def model_items(seed, ncases, inflight):
         ext_model_items(rng_ext, amg_core, add, n, ip, ix, dx)
         ext3_model_items(rng_ext3, amg_core, add, n, ip, ix, dx)
         ext25_model_items(rng_ext25, amg_core, add, n, ip, ix)
+        ext4_model_items(rng_ext4, amg_core, add, n, ip, ix, dx)
         # proof-side models of the termination theorems + RS model (existing ops; symmetric graphs, no self loops for RS)
         gp, gj, gx, _ = _exact_csr(rng, n, sym=True, diag='none', unsorted=False)
         gh = f'{n} {enc_ints(gp)} {enc_ints(gj)}'
@@ -2262,6 +2361,28 @@ def part_model(ctx, ncases):
         ('ext_c17r3_floyd_warshall 2 0,1,2 1,0 1,1 0,1 0,5 0,0 0 2 9,9,9,9 -1,-1,-1,-1', ';fault'),       # L[1] = 5 is not a local index of a cluster of 2
         ('ext_c17r3_connected_components 2 0,1,2 1,5 -7,-7', ';fault'),                                   # column index 5: components[5]
         ('ext_c17r3_most_interior_nodes 2 0,1,2 1,0 1,1 0 0,0 0,3 -1,-1', ';fault'),                      # m[1] = 3 indexes c, which has one cluster
+        # extension E32 (round 4)
+        ('ext_c17r4_fit_candidates 1 1 2 0,1 0 0,0 0,0 0,0,0 0', ';fault'),                                   # R holds 3 of the K2*K2 = 4 entries of the block column
+        ('ext_c17r4_fit_candidates 1 2 1 0,1 0 0 0,0 0 0', ';fault'),                                        # Ax holds one of the K1*K2 = 2 entries of the stored block
+        ('ext_c17r4_fit_candidates 1 1 1 0,1 3 0 0 0 0', ';fault'),                                          # Ai = 3: B has one supernode
+        ('ext_c17r4_cljp_naive_splitting 2 0,1,2 1,0 0,1,2 1,5 -7,-7 1 0,0', ';fault'),                      # Tj = 5: splitting[5]
+        ('ext_c17r4_cljp_naive_splitting 2 0,1,2 1,7 0,1,2 1,0 -7,-7 0 0,0', ';fault'),                      # Sj = 7: weight[7]
+        ('ext_c17r4_cljp_naive_splitting 0 0 - 0 - - 1 -', ';fault'),                                        # n = 0 with colouring: *max_element of an empty vector
+        ('ext_c17r4_pairwise_aggregation 2 0,1,2 1,5 1,1 -7,-7 -7,-7', ';fault'),                           # column index 5: m[5]
+        ('ext_c17r4_pairwise_aggregation 2 0,1,2 1,0 1,1 -7,-7 -', ';fault'),                               # y is empty
+        ('ext_c18_bfbal 2 0,1,2 1,0 1,1 1/100000000000000 1 0,inf 0,-1 -1,-1 0,0 -', 'fault'),                 # s is empty: s[m[i]] out of range
+        ('ext_c18_bfbal 2 0,1,2 1,5 1,1 1/100000000000000 1 0,inf 0,-1 -1,-1 0,0 1', 'fault'),                 # column index 5
+        ('ext_c17r4_vertex_coloring_mis 2 0,1,2 1,5 -7,-7', ';fault'),                                    # column index 5: x[5]
+        ('ext_c17r4_vertex_coloring_mis 2 0,1,2 1,0 -7', ';fault'),                                       # x has one entry
+        ('ext_c17r4_maximal_independent_set_parallel 2 0,1,2 1,0 -1 1 0 -1,-1 0 -1', ';fault'),           # y has one entry
+        ('ext_c17r4_maximal_independent_set_parallel 2 0,1,2 1,0 -1 1 0 -1,-1 0,0 0', '-1,-1;0;ok'),      # max_iters = 0: no pass
+        ('ext_c17r4_vertex_coloring_jones_plassmann 0 0 - - -', ';fault'),                                # num_rows = 0: *max_element(x, x) reads x[0]
+        ('ext_c17r4_vertex_coloring_jones_plassmann 2 0,1,2 1,0 -7,-7 0', ';fault'),                      # z has one entry
+        ('ext_c17r4_vertex_coloring_LDF 2 0,1,2 1,7 -7,-7 0,0', ';fault'),                                # column index 7
+        ('ext_c17r4_vertex_coloring_LDF 0 0 - - -', ';fault'),                                            # num_rows = 0
+        ('ext_c17r4_maximal_independent_set_k_parallel 2 0,1,2 1,0 1 -7,-7 0 -1', ';fault'),              # y has one entry
+        ('ext_c17r4_maximal_independent_set_k_parallel 2 0,1,2 1,5 1 -7,-7 0,0 -1', ';fault'),            # column index 5: i_keys[5]
+        ('ext_c17r4_maximal_independent_set_k_parallel 3 0,1,3,4 1,0,2,1 1 -7,-7,-7 -1,0,1 -1', 'nonterm'),   # a weight <= -1 next to a decided node (C18 finding): the fuel runs out
     ]
     outs = ctx.lean([c[0] for c in controls], chunks=1)
     for (line, want), o in zip(controls, outs):
